@@ -50,7 +50,7 @@ def exhaustive(tier):
                 rows = rows[:n] if n >= 2 else [list(v)]
                 rows_b = [list(w), list(v)] + [zero] * (n - 2)
                 rows_b = rows_b[:n] if n >= 2 else [list(w)]
-                for gen in ('hr', 'spa'):
+                for gen in ('hr', 'spa', 'spa_shared'):
                     yield {'kind': 'instance', 'gen': gen, 'n': n, 'rows1': rows, 'rows2': rows_b}
     for n in range(1, NMAX[tier] + 1):
         for vec in itertools.product((0, 1), repeat=n):
@@ -85,7 +85,7 @@ def _cases(draw):
         tp = draw(st.sampled_from([30, 50, 70, 100]))
         rows1 = [[1 if pct(draw) < tp else 0 for _ in range(n)] for _ in range(n)]
         rows2 = [[1 if pct(draw) < tp else 0 for _ in range(n)] for _ in range(n)]
-        return {'kind': 'instance', 'gen': draw(st.sampled_from(['hr', 'spa'])), 'n': n,
+        return {'kind': 'instance', 'gen': draw(st.sampled_from(['hr', 'spa', 'spa_shared'])), 'n': n,
                 'rows1': rows1, 'rows2': rows2}
     pl = draw(st.sampled_from(PLACEMENTS))
     as_numpy = draw(st.booleans())
@@ -212,24 +212,33 @@ def run_instance(case):
     ties2 = [np.array(v) for v in rows2]
     p1 = [np.array(p) for p in perms1]
     p2 = [list(p) for p in perms2]
+    n3 = n2
+    plec = list(range(1, n2 + 1))
+    if case['gen'] == 'spa_shared':
+        # two projects per lecturer: every student has several pairs with one lecturer, all of
+        # which carry the rank of the student's single entry on that lecturer's list
+        n3 = (n2 + 1) // 2
+        plec = [j // 2 + 1 for j in range(n2)]
+        perms2, rows2 = perms2[:n3], rows2[:n3]
+        ties2, p2 = ties2[:n3], p2[:n3]
     if case['gen'] == 'hr':
         text = call_repo('create_instance', Generator_ha_sm_hr().create_instance, n1, n2, p1,
                          ties1, p2, ties2, [0] * n2, [n1] * n2, 'info\n')
         na = 2
     else:
-        text = call_repo('create_instance', Generator_spa().create_instance, n1, n2, n2, p1, ties1,
-                         list(range(1, n2 + 1)), [0] * n2, [n1] * n2, p2, ties2, [0] * n2,
-                         [n1] * n2, [n1] * n2, 'info\n')
+        text = call_repo('create_instance', Generator_spa().create_instance, n1, n2, n3, p1, ties1,
+                         plec, [0] * n2, [n1] * n2, p2, ties2, [0] * n3,
+                         [n1] * n3, [n1] * n3, 'info\n')
         na = 3
     lines = text.split('\n')
     want1 = [expected_groups(perms1[i], rows1[i]) for i in range(n1)]
-    want2 = [expected_groups(perms2[k], rows2[k]) if perms2[k] else [] for k in range(n2)]
+    want2 = [expected_groups(perms2[k], rows2[k]) if perms2[k] else [] for k in range(n3)]
     for i in range(n1):
         got = lines[1 + i].split()[1:]
         check_writer(got, perms1[i], rows1[i])
     off = 1 + n1 + (n2 if na == 3 else 0)
     skip = 4 if na == 3 else 3
-    for k in range(n2):
+    for k in range(n3):
         got = lines[off + k].split()[skip:]
         if perms2[k] or got:
             check_writer(got, perms2[k], rows2[k])
@@ -239,7 +248,7 @@ def run_instance(case):
     except Violation as v:
         raise Violation('reader_fails', 'instance assembled by create_instance (%s): %s'
                         % (case['gen'], v.detail), exc=v.exc)
-    w2s = [{x: r + 1 for r, g in enumerate(want2[k]) for x in g} for k in range(n2)]
+    w2s = [{x: r + 1 for r, g in enumerate(want2[k]) for x in g} for k in range(n3)]
     for i in range(n1):
         rs = {p.projectID: p.rank_student for p in model.pairs[i]}
         w = {x: r + 1 for r, g in enumerate(want1[i]) for x in g}
@@ -248,10 +257,10 @@ def run_instance(case):
                             % (i + 1, lines[1 + i][:200], rs, w))
         for p in model.pairs[i]:
             k = p.lecturerID - 1
-            if p.rank_lecturer != w2s[k][i + 1]:
+            if getattr(p, 'rank_lecturer', None) != w2s[k][i + 1]:
                 raise Violation('reader_ranks', 'row %d of side 2 (%r): agent %d read with rank '
                                 '%r, expected %r' % (k + 1, lines[off + k][:200], i + 1,
-                                                     p.rank_lecturer, w2s[k][i + 1]))
+                                                     getattr(p, 'rank_lecturer', None), w2s[k][i + 1]))
     inner = [x for v in list(rows1) + list(rows2) for x in v[:len(v) - 1]]
     ends_in_tie = any(len(v) >= 2 and v[-2] and v[-1] for v in list(rows1[:-1]) + list(rows2[:-1]))
     labels = ['kind=' + case.get('kind', 'instance'), 'gen=' + case['gen']]
